@@ -71,10 +71,12 @@ func forcedCommitWindow(run *evid.Run, n int) {
 		// What the conflicting goroutine observed: it writes, then looks the blob up.
 		type obs struct {
 			writeErr   error
+			commit2Err error
 			visible    bool // GetBlob(d) succeeded right after the write
 			inWindow   bool // both happened before the committer was released
 		}
 		var o obs
+		secondCommit := i%3 == 2
 		done := make(chan struct{})
 		var released atomic.Bool
 		ocimem.VerifSetYield(func(point string, b *ocimem.Buffer) {
@@ -85,6 +87,15 @@ func forcedCommitWindow(run *evid.Run, n int) {
 			// goroutine B performs the conflicting operations while the committer is parked here
 			go func() {
 				defer close(done)
+				if secondCommit {
+					// a second Commit of the same session with the same (correct) digest, e.g. a retried
+					// final request: whenever it reports success the blob has to be there
+					_, o.commit2Err = b.Commit(ociregistry.Digest(d))
+					_, rerr := reg.ResolveBlob(bg, "r", ociregistry.Digest(d))
+					o.visible = rerr == nil
+					o.inWindow = !released.Load()
+					return
+				}
 				_, o.writeErr = b.Write(extra)
 				_, _, gerr := readAll(reg.GetBlob(bg, "r", ociregistry.Digest(d)))
 				o.visible = gerr == nil
@@ -114,6 +125,13 @@ func forcedCommitWindow(run *evid.Run, n int) {
 		}
 		witness := map[string]any{"content": string(content), "late_write": string(extra), "commit_digest": d,
 			"late_write_error": fmt.Sprint(o.writeErr), "blob_visible_after_late_write": o.visible, "conflict_ran_inside_window": o.inWindow, "commit_error": fmt.Sprint(cerr)}
+		if secondCommit {
+			run.Count("forced_second_commits", 1)
+			witness["second_commit_error"] = fmt.Sprint(o.commit2Err)
+			if hits > 0 && o.commit2Err == nil && !o.visible {
+				run.Violation("forced/commit-window/second-commit-acknowledged-before-stored", "a second Commit of the same upload with the same digest reported success while the first was between its digest check and storing the blob, and ResolveBlob right after it did not find the blob", witness)
+			}
+		}
 		if cerr != nil {
 			// refusing the commit because of the interference would be acceptable; nothing may be stored then
 			if data, _, gerr := readAll(reg.GetBlob(bg, "r", ociregistry.Digest(d))); gerr == nil {
@@ -124,7 +142,7 @@ func forcedCommitWindow(run *evid.Run, n int) {
 		}
 		// atomicity: the late Write was accepted after the digest check (so the commit precedes it),
 		// yet the blob was not visible afterwards (so the commit follows it): no single point for Commit.
-		if o.inWindow && o.writeErr == nil && !o.visible {
+		if !secondCommit && o.inWindow && o.writeErr == nil && !o.visible {
 			run.Violation("forced/commit-window/commit-not-atomic", "a Write accepted between the digest check and the commit callback was followed by GetBlob not finding the blob, and Commit then succeeded: Commit has no single linearization point", witness)
 		}
 		data, gdesc, gerr := readAll(reg.GetBlob(bg, "r", ociregistry.Digest(d)))
